@@ -38,29 +38,39 @@ type target struct {
 	file string // relative to the repo root
 	name string // function name
 	recv string // receiver type name ("" for plain functions)
+	// for methods: the receiver's fields the function reads, "field:kind,…" — each becomes a parameter
+	recvFields string
 }
 
 var targets = []target{
-	{"pkg/util/util.go", "validOptionalPort", ""},
-	{"pkg/util/util.go", "SplitHostPort", ""},
-	{"pkg/util/util.go", "isHostnameAllowed", ""},
-	{"pkg/util/util.go", "IsEndpointAllowed", ""},
-	{"validator.go", "isEmailValidWithDomains", ""},
-	{"pkg/sessions/cookie/session_store.go", "splitCookieName", ""},
-	{"pkg/sessions/cookie/session_store.go", "isSessionCookieName", ""},
-	{"pkg/encryption/utils.go", "SecretBytes", ""},
-	{"pkg/encryption/utils.go", "cookieSignature", ""},
-	{"pkg/encryption/utils.go", "checkHmac", ""},
-	{"pkg/encryption/utils.go", "checkSignature", ""},
-	{"pkg/encryption/utils.go", "Validate", ""},
-	{"pkg/encryption/utils.go", "SignedValue", ""},
-	{"pkg/encryption/utils.go", "GenerateCodeChallenge", ""},
-	{"pkg/requests/util/util.go", "IsProxied", ""},
-	{"pkg/requests/util/util.go", "GetRequestProto", ""},
-	{"pkg/requests/util/util.go", "GetRequestHost", ""},
-	{"pkg/requests/util/util.go", "GetRequestURI", ""},
-	{"pkg/requests/util/util.go", "IsForwardedRequest", ""},
-	{"pkg/cookies/cookies.go", "GetCookieDomain", ""},
+	{"pkg/util/util.go", "validOptionalPort", "", ""},
+	{"pkg/util/util.go", "SplitHostPort", "", ""},
+	{"pkg/util/util.go", "isHostnameAllowed", "", ""},
+	{"pkg/util/util.go", "IsEndpointAllowed", "", ""},
+	{"validator.go", "isEmailValidWithDomains", "", ""},
+	{"pkg/sessions/cookie/session_store.go", "splitCookieName", "", ""},
+	{"pkg/sessions/cookie/session_store.go", "isSessionCookieName", "", ""},
+	{"pkg/encryption/utils.go", "SecretBytes", "", ""},
+	{"pkg/encryption/utils.go", "cookieSignature", "", ""},
+	{"pkg/encryption/utils.go", "checkHmac", "", ""},
+	{"pkg/encryption/utils.go", "checkSignature", "", ""},
+	{"pkg/encryption/utils.go", "Validate", "", ""},
+	{"pkg/encryption/utils.go", "SignedValue", "", ""},
+	{"pkg/encryption/utils.go", "GenerateCodeChallenge", "", ""},
+	{"pkg/requests/util/util.go", "IsProxied", "", ""},
+	{"pkg/requests/util/util.go", "GetRequestProto", "", ""},
+	{"pkg/requests/util/util.go", "GetRequestHost", "", ""},
+	{"pkg/requests/util/util.go", "GetRequestURI", "", ""},
+	{"pkg/requests/util/util.go", "IsForwardedRequest", "", ""},
+	{"pkg/cookies/cookies.go", "GetCookieDomain", "", ""},
+	{"pkg/requests/util/util.go", "GetRequestPath", "", ""},
+	{"oauthproxy.go", "isAllowedMethod", "", ""},
+	{"oauthproxy.go", "isAllowedPath", "", ""},
+	{"oauthproxy.go", "isAllowedRoute", "OAuthProxy", "allowedRoutes:routes"},
+	{"pkg/app/redirect/validator.go", "IsValidRedirect", "validator", "allowedDomains:strs"},
+	{"pkg/cookies/csrf.go", "ExtractStateSubstring", "", ""},
+	{"pkg/cookies/csrf.go", "csrfCookieName", "", ""},
+	{"pkg/cookies/csrf.go", "GenerateCookieName", "", ""},
 }
 
 // kinds
@@ -79,6 +89,10 @@ const (
 	kUnit   = "unit"
 	kHmac   = "hmac"
 	kScope  = "scopeptr"
+	kRoute  = "route"
+	kRoutes = "routes"
+	kRegex  = "regex"
+	kCkOpts = "cookieopts"
 	kAny    = "?"
 )
 
@@ -112,6 +126,14 @@ func leanOfKind(k string) string {
 		return "Go.Hmac"
 	case kScope:
 		return "Option Go.Scope"
+	case kRoute:
+		return "Go.Route"
+	case kRoutes:
+		return "List Go.Route"
+	case kRegex:
+		return "Str"
+	case kCkOpts:
+		return "Go.CookieOpts"
 	}
 	panic("no Lean type for kind " + k)
 }
@@ -187,6 +209,10 @@ func kindOfType(t ast.Expr) string {
 		return kURL
 	case "*http.Request":
 		return kReq
+	case "allowedRoute":
+		return kRoute
+	case "*options.Cookie":
+		return kCkOpts
 	case "func":
 		return kUnit
 	}
@@ -205,14 +231,15 @@ type tr struct {
 	consts map[string]string // package-level string/int constants: name -> Lean term
 	ckinds map[string]string
 	// per function
-	kinds    map[string]string
-	named    []string // named results
-	results  []string
-	loopRet  int // >0 inside a forRange body
-	mutable  map[string]bool // variables that are assigned after their declaration
-	loopSt   []string // "" for a stateless loop body, else the Lean tuple of the loop-carried variables
-	tmp      int
-	warnings []string
+	kinds      map[string]string
+	named      []string // named results
+	results    []string
+	loopRet    int               // >0 inside a forRange body
+	recvFields map[string]string // "recv.field" -> kind
+	mutable    map[string]bool   // variables that are assigned after their declaration
+	loopSt     []string          // "" for a stateless loop body, else the Lean tuple of the loop-carried variables
+	tmp        int
+	warnings   []string
 }
 
 var leanKeywords = map[string]bool{"end": true, "at": true, "from": true, "have": true, "show": true, "then": true, "else": true,
@@ -220,7 +247,7 @@ var leanKeywords = map[string]bool{"end": true, "at": true, "from": true, "have"
 	"instance": true, "class": true, "structure": true, "theorem": true, "def": true, "namespace": true, "section": true,
 	"variable": true, "universe": true, "macro": true, "syntax": true, "prefix": true, "infix": true, "notation": true, "deriving": true,
 	"mut": true, "for": true, "if": true, "return": true, "unless": true, "try": true, "catch": true, "finally": true, "using": true,
-	"exact": true, "Type": true, "Prop": true, "Sort": true, "nil": true, "some": true, "none": true, "E": true}
+	"exact": true, "matches": true, "from_": true, "Type": true, "Prop": true, "Sort": true, "nil": true, "some": true, "none": true, "E": true}
 
 func ident(n string) string {
 	if leanKeywords[n] {
@@ -338,14 +365,35 @@ func (t *tr) expr(e ast.Expr) (string, string) {
 		switch full {
 		case "time.Minute":
 			return "Go.timeMinute", kInt
+		case "time.Second":
+			return "Go.timeSecond", kInt
+		case "time.Hour":
+			return "(Go.timeMinute * 60)", kInt
 		}
 		if id, ok := x.X.(*ast.Ident); ok {
+			if k, ok := t.recvFields[id.Name+"."+x.Sel.Name]; ok {
+				return ident(id.Name + "_" + x.Sel.Name), k
+			}
 			if k, ok := t.kinds[id.Name]; ok {
 				switch k + "." + x.Sel.Name {
 				case "cookie.Name", "cookie.Value":
 					return ident(id.Name) + "." + x.Sel.Name, kStr
 				case "req.Host":
 					return ident(id.Name) + ".host", kStr
+				case "req.Method":
+					return ident(id.Name) + ".method", kStr
+				case "route.method":
+					return ident(id.Name) + ".method", kStr
+				case "route.negate":
+					return ident(id.Name) + ".negate", kBool
+				case "route.pathRegex":
+					return ident(id.Name) + ".pathRegex", kRegex
+				case "cookieopts.Name":
+					return ident(id.Name) + ".Name", kStr
+				case "cookieopts.CSRFPerRequest":
+					return ident(id.Name) + ".CSRFPerRequest", kBool
+				case "url.Path":
+					return ident(id.Name) + ".path", kStr
 				case "scopeptr.ReverseProxy":
 					// a field read through a pointer: nil is a panic
 					return "(← Go.derefScope " + ident(id.Name) + ").ReverseProxy", kBool
@@ -556,6 +604,12 @@ func (t *tr) call(x *ast.CallExpr) (string, string) {
 			fail("time.Unix with a nanosecond part")
 		}
 		return "(Go.timeUnix " + a()[0] + ")", kTime
+	case "url.Parse":
+		return "(Go.urlParse E " + a()[0] + ")", "tuple:url,err"
+	case "url.ParseRequestURI":
+		return "(Go.urlParseRequestURI E " + a()[0] + ")", "tuple:url,err"
+	case "strings.Index":
+		return "(Go.stringsIndex " + strings.Join(a(), " ") + ")", kInt
 	case "middlewareapi.GetRequestScope":
 		return a()[0] + ".scope", kScope
 	case "net.SplitHostPort":
@@ -576,7 +630,7 @@ func (t *tr) call(x *ast.CallExpr) (string, string) {
 		// a translated function of another package: pkg.F(...)
 		if pkg, ok := sel.X.(*ast.Ident); ok {
 			if _, isVar := t.kinds[pkg.Name]; !isVar {
-				if _, ok := t.sigs[sel.Sel.Name]; ok && pkg.Name == "requestutil" {
+				if _, ok := t.sigs[sel.Sel.Name]; ok && (pkg.Name == "requestutil" || pkg.Name == "util") {
 					return t.call(&ast.CallExpr{Fun: ast.NewIdent(sel.Sel.Name), Args: x.Args, Ellipsis: x.Ellipsis})
 				}
 			}
@@ -596,6 +650,12 @@ func (t *tr) call(x *ast.CallExpr) (string, string) {
 				case "time.Unix":
 					return "(Go.timeToUnix " + ident(id.Name) + ")", kInt
 				}
+			}
+		}
+		if sel.Sel.Name == "MatchString" {
+			rc, rk := t.expr(sel.X)
+			if rk == kRegex {
+				return "(E.regexMatch " + atom(rc) + " " + a()[0] + ")", kBool
 			}
 		}
 		// methods on arbitrary time-valued expressions
@@ -618,6 +678,12 @@ func (t *tr) call(x *ast.CallExpr) (string, string) {
 				return "(decide (" + rc + " < " + a()[0] + "))", kBool
 			case "Add":
 				return "(" + rc + " + " + a()[0] + ")", kTime
+			case "Truncate":
+				return "(Go.timeTruncate " + atom(rc) + " " + a()[0] + ")", kTime
+			case "Sub":
+				return "(" + rc + " - " + a()[0] + ")", kInt
+			case "Equal":
+				return "(" + rc + " == " + a()[0] + ")", kBool
 			case "Unix":
 				return "(Go.timeToUnix " + atom(rc) + ")", kInt
 			}
@@ -928,10 +994,13 @@ func (t *tr) stmt(o *out, ind int, s ast.Stmt) {
 			}
 		}
 	case *ast.SwitchStmt:
-		if x.Init != nil || x.Tag == nil {
-			fail("switch without a tag / with init")
+		if x.Init != nil {
+			fail("switch with init")
 		}
-		tag, _ := t.expr(x.Tag)
+		tag := ""
+		if x.Tag != nil {
+			tag, _ = t.expr(x.Tag)
+		}
 		var def *ast.CaseClause
 		var cases []*ast.CaseClause
 		for _, c := range x.Body.List {
@@ -952,7 +1021,11 @@ func (t *tr) stmt(o *out, ind int, s ast.Stmt) {
 			var conds []string
 			for _, v := range cc.List {
 				c, _ := t.expr(v)
-				conds = append(conds, "("+tag+" == "+c+")")
+				if tag == "" {
+					conds = append(conds, c) // `switch { case cond: }`
+				} else {
+					conds = append(conds, "("+tag+" == "+c+")")
+				}
 			}
 			o.add(cur, "if "+strings.Join(conds, " || ")+" then")
 			t.block(o, cur+1, cc.Body)
@@ -983,6 +1056,8 @@ func (t *tr) stmt(o *out, ind int, s ast.Stmt) {
 			ek = kStr
 		case kInts:
 			ek = kInt
+		case kRoutes:
+			ek = kRoute
 		default:
 			fail("range over a value of kind %s", k)
 		}
@@ -1149,6 +1224,27 @@ func main() {
 				os.Exit(1)
 			}
 			files[tg.file] = f
+			// package-level `regexp.MustCompile(<literal>)` variables: the pattern is the value
+			for _, d := range f.Decls {
+				gd, ok := d.(*ast.GenDecl)
+				if !ok || gd.Tok != token.VAR {
+					continue
+				}
+				for _, sp := range gd.Specs {
+					vs := sp.(*ast.ValueSpec)
+					for i, n := range vs.Names {
+						if i < len(vs.Values) {
+							if c, ok := vs.Values[i].(*ast.CallExpr); ok && exprString(c.Fun) == "regexp.MustCompile" && len(c.Args) == 1 {
+								if bl, ok := c.Args[0].(*ast.BasicLit); ok && bl.Kind == token.STRING {
+									pat, _ := strconv.Unquote(bl.Value)
+									t.consts[n.Name] = strLit(pat)
+									t.ckinds[n.Name] = kRegex
+								}
+							}
+						}
+					}
+				}
+			}
 			// package-level constants with literal values
 			for _, d := range f.Decls {
 				gd, ok := d.(*ast.GenDecl)
@@ -1235,6 +1331,18 @@ func main() {
 			t.mutable[n] = true
 		}
 		var ps []string
+		t.recvFields = map[string]string{}
+		if tg.recv != "" && fd.Recv != nil && len(fd.Recv.List) == 1 && len(fd.Recv.List[0].Names) == 1 {
+			rn := fd.Recv.List[0].Names[0].Name
+			for _, fk := range strings.Split(tg.recvFields, ",") {
+				if fk == "" {
+					continue
+				}
+				kv := strings.SplitN(fk, ":", 2)
+				t.recvFields[rn+"."+kv[0]] = kv[1]
+				ps = append(ps, "("+ident(rn+"_"+kv[0])+" : "+leanOfKind(kv[1])+")")
+			}
+		}
 		for i, k := range s.params {
 			n := pnames[i]
 			if n == "" || n == "_" {
